@@ -7,6 +7,7 @@ package main
 // not from ProcessBlock's return value alone.
 
 import (
+	"bytes"
 	"fmt"
 	"math/big"
 
@@ -35,11 +36,13 @@ const (
 	kHeaderFirstReorg
 	kChildAfter
 	kReorgDeep
+	kRestore
+	kReopenRestore
 )
 
 var kindNames = map[int]string{kTip: "tip", kReorg: "reorg", kDeferred: "deferred", kOrphan: "orphan", kTemplate: "template",
 	kReopen: "reopen", kFork: "fork", kForkBad: "fork-failed-reorg", kReopenReorg: "reopen-reorg", kReopenDeferred: "reopen-deferred",
-	kOrphanReorg: "orphan-reorg", kHeaderFirst: "header-first", kHeaderFirstReorg: "header-first-reorg", kChildAfter: "child-after", kReorgDeep: "reorg-depth3"}
+	kOrphanReorg: "orphan-reorg", kHeaderFirst: "header-first", kHeaderFirstReorg: "header-first-reorg", kChildAfter: "child-after", kReorgDeep: "reorg-depth3", kRestore: "restore-from-journal", kReopenRestore: "reopen-restore-from-journal"}
 
 const bigCache = 64 << 20
 
@@ -64,6 +67,13 @@ type plan struct {
 	U      []*lab.Blk // unrelated fork (2 blocks) off an older ancestor
 	UBad   *lab.Blk   // invalid block on top of U (would have most work)
 	X      []*lab.Blk // three blocks competing with the parent's last three ancestors (deep reorganisation)
+	// R1, R2 extend the PARENT on the old main chain; R2 validly spends the very
+	// outputs the candidate spends, so a reorganisation onto the candidate's
+	// branch (candidate, D, E) has to restore them from R2's spend journal
+	// (coinbase flag, height, amount, script) before the candidate is validated.
+	R1, R2   *lab.Blk
+	E        *lab.Blk // child of D
+	Restored int      // number of outputs R2 spends
 	// skip: context kinds whose chain-work preconditions do not hold for this
 	// case (only in parameter sets where blocks carry different work)
 	skip map[int]bool
@@ -85,7 +95,59 @@ func workOf(b *lab.Blk) *big.Int {
 	return sum
 }
 
-func mkPlan(cs *Case, idx int) *plan {
+// validSpender builds a transaction that validly spends the given coin (one of
+// the lab's script templates) into one anyone-can-spend output; nil if the
+// script is not one of the templates.
+func validSpender(op wire.OutPoint, c refblock.Coin) *wire.MsgTx {
+	o := out{Op: op, Value: c.Value, Script: c.Script}
+	mk := func(ver int32, seq, lock uint32) *wire.MsgTx {
+		return spendTx(ver, []out{o}, seq, []*wire.TxOut{txo(c.Value, lab.OpTrue)}, lock)
+	}
+	is := func(s []byte) bool { return bytes.Equal(c.Script, s) }
+	switch {
+	case is(lab.OpTrue):
+		return mk(1, 0xffffffff, 0)
+	case is(p2pkh(key1)):
+		tx := mk(1, 0xffffffff, 0)
+		tx.TxIn[0].SignatureScript = signP2PKH(tx, 0, key1, c.Script)
+		return tx
+	case is(p2sh(redeem100)), is(p2sh(redeem101)):
+		tx := mk(1, 0xffffffff, 0)
+		r := redeem100
+		if is(p2sh(redeem101)) {
+			r = redeem101
+		}
+		tx.TxIn[0].SignatureScript = push(r)
+		return tx
+	case is(p2wsh(dropScript)):
+		tx := mk(1, 0xffffffff, 0)
+		tx.TxIn[0].Witness = wire.TxWitness{{0x07}, dropScript}
+		return tx
+	case is(p2wpkh(key1)):
+		tx := mk(1, 0xffffffff, 0)
+		tx.TxIn[0].Witness = signP2WPKH(tx, 0, c.Value, key1)
+		return tx
+	case is(p2sh(p2wpkh(key1))):
+		tx := mk(1, 0xffffffff, 0)
+		tx.TxIn[0].SignatureScript = push(p2wpkh(key1))
+		tx.TxIn[0].Witness = signP2WPKH(tx, 0, c.Value, key1)
+		return tx
+	case is(cltvScr):
+		return mk(1, 0, 5)
+	case is(csvScr):
+		return mk(2, 1, 0)
+	}
+	for _, ws := range [][]byte{wit400, wit401, wit1} {
+		if is(p2wsh(ws)) {
+			tx := mk(1, 0xffffffff, 0)
+			tx.TxIn[0].Witness = wire.TxWitness{ws}
+			return tx
+		}
+	}
+	return nil
+}
+
+func mkPlan(cs *Case, idx int, atParent *refblock.State) *plan {
 	w := cs.W
 	pl := &plan{cs: cs}
 	tag := uint32(0x200000 + idx*16)
@@ -134,8 +196,34 @@ func mkPlan(cs *Case, idx int) *plan {
 		pl.U = append(pl.U, top)
 	}
 	pl.UBad = w.filler(top, cs.Key()+"/Ubad", tag+15, nil, 1) // coinbase pays 1 satoshi too much
+	// the old main chain spends what the candidate spends
+	pl.R1 = w.filler(P, cs.Key()+"/R1", tag+9, nil, 0)
+	var rtx []*wire.MsgTx
+	seenOp := map[wire.OutPoint]bool{}
+	for ti, tx := range cs.Cand.Msg.Transactions {
+		if ti == 0 && refblock.IsCoinbase(tx) {
+			continue
+		}
+		for _, in := range tx.TxIn {
+			op := in.PreviousOutPoint
+			c, ok := atParent.Utxo[op]
+			if !ok || seenOp[op] {
+				continue
+			}
+			seenOp[op] = true
+			if sp := validSpender(op, c); sp != nil {
+				rtx = append(rtx, sp)
+			}
+		}
+	}
+	pl.Restored = len(rtx)
+	pl.R2 = w.filler(pl.R1, cs.Key()+"/R2", tag+10, rtx, 0)
+	pl.E = w.filler(pl.D, cs.Key()+"/E", tag+11, nil, 0)
 	// chain-work preconditions of the context shapes
 	pl.skip = map[int]bool{}
+	if wR2 := workOf(pl.R2); !(workOf(cs.Cand).Cmp(wR2) <= 0 && workOf(pl.D).Cmp(wR2) <= 0 && workOf(pl.E).Cmp(wR2) > 0) {
+		pl.skip[kRestore], pl.skip[kReopenRestore] = true, true
+	}
 	wP, wC, wD := workOf(P), workOf(cs.Cand), workOf(pl.D)
 	wA1, wA2 := workOf(pl.A1), workOf(pl.A2)
 	if !(wP.Cmp(wA1) <= 0 && wC.Cmp(wA1) > 0) {
@@ -420,6 +508,38 @@ func runContext(pl *plan, k ctxSpec) (res result) {
 			d.settle(cs, cs.Cand, true, true)
 		} else {
 			d.settle(cs, pl.A1, false, true)
+		}
+
+	case kRestore, kReopenRestore:
+		// old main chain: base + R1 + R2 (R2 spends the candidate's inputs, validly);
+		// then the candidate's branch arrives: candidate, D (both stored: not more
+		// work) and E, which forces the reorganisation that must restore those
+		// outputs from R2's spend journal before the candidate is judged
+		for _, b := range base {
+			d.valid(b, true)
+		}
+		d.valid(pl.R1, true)
+		d.valid(pl.R2, true)
+		if k.Kind == kReopenRestore {
+			reopen()
+		}
+		cand(false)
+		for _, b := range []*lab.Blk{pl.D, pl.E} {
+			if res.Fail != "" {
+				break
+			}
+			_, orphan, err := d.any(b, false)
+			if valid && (err != nil || orphan) {
+				d.failf("descendant %s of a valid candidate: ProcessBlock = (orphan=%v err=%v)", b.Name, orphan, err)
+			}
+			if b == pl.D && res.Fail == "" && d.best() != pl.R2.Hash {
+				d.failf("a side branch without more work moved the best block")
+			}
+		}
+		if valid {
+			d.settle(cs, pl.E, true, true)
+		} else {
+			d.settle(cs, pl.R2, false, true)
 		}
 
 	case kReorgDeep:
